@@ -3,7 +3,7 @@
    groundwater depth uses the real instance. *)
 From AC Require Import Num RInst Params.
 From AC.Init Require Import Inputs.
-From Coq Require Import Permutation Lia.
+From Coq Require Import Permutation Sorted Lia.
 Local Open Scope Z_scope.
 
 (* ------------------------------------------------------------------------------------------------ *)
@@ -848,10 +848,49 @@ Section Generic.
         destruct (d * time_unit =? d0 * time_unit) eqn:E2; [apply Z.eqb_eq in E2; unfold time_unit in E2; nia|].
         reflexivity.
       + apply to_time_le. eapply Forall_impl; [|exact Hl]. simpl. intros; lia.
-    - apply Forall_app. split; [eapply Forall_impl; [|exact Hl]; simpl; intros; lia|].
-      constructor; [simpl; lia|]. inversion Hr; subst. constructor; [simpl in *; lia|].
-      eapply Forall_impl; [|exact H4]. simpl. intros a Ha.
-      apply (sorted_app_right (pre ++ [(d0, v0)]) (d1, v1) post) in Hs'. all: fail.
+    - assert (Forall (fun y : Z * F => d1 < fst y) post) as Hr2.
+      { apply (sorted_app_right (pre ++ [(d0, v0)]) (d1, v1) post). rewrite <- app_assoc. exact Hs. }
+      apply Forall_app. split; [eapply Forall_impl; [|exact Hl]; simpl; intros; lia|].
+      constructor; [simpl; lia|]. constructor; [simpl; lia|].
+      eapply Forall_impl; [|exact Hr2]. simpl. intros; lia.
+  Qed.
+  (* the series of the "Variable" method, one entry per simulation day *)
+  Theorem gw_series_variable s e o1 o2 (r : list (Z * F)) :
+    gw_series true GwVariable s e (o1 :: o2 :: r)
+    = Ok (map (gw_time_interp (obs_sorted (o1 :: o2 :: r))) (span s e)).
+  Proof. destruct o1. reflexivity. Qed.
+
+  Lemma gw_time_interp_defined (pts : list (Z * F)) d : pts <> [] -> gw_time_interp pts d <> None.
+  Proof.
+    intros H. unfold gw_time_interp. destruct (lookup_date d pts); [discriminate|].
+    destruct pts as [|[d0 v0] pts]; [contradiction|]. simpl. discriminate.
+  Qed.
+
+  Lemma all_some_defined (l : list (option F)) : Forall (fun o => o <> None) l -> exists vs, all_some l = Some vs.
+  Proof.
+    induction 1 as [|[v|] l H _ [vs IH]]; simpl; eauto; [rewrite IH; eauto|contradiction].
+  Qed.
+
+  (* gw_variable_defined: with two or more observations -- wherever they lie relative to the window, in any
+     order, with or without repeated dates -- every simulation day has a depth (no NaN), and the series has
+     exactly n_steps entries *)
+  Theorem gw_variable_defined s e o1 o2 (r : list (Z * F)) z :
+    gw_series true GwVariable s e (o1 :: o2 :: r) = Ok z ->
+    length z = Z.to_nat (e - s + 1) /\ Forall (fun o => o <> None) z /\
+    (forall k, (k < Z.to_nat (e - s + 1))%nat ->
+       exists v, gw_at z k = Some v /\ gw_time_interp (obs_sorted (o1 :: o2 :: r)) (s + Z.of_nat k) = Some v) /\
+    exists l, gw_daily true GwVariable s e (o1 :: o2 :: r) = Some l.
+  Proof.
+    intros H. pose proof H as H'. rewrite gw_series_variable in H. injection H as <-.
+    assert (Forall (fun o : option F => o <> None) (map (gw_time_interp (obs_sorted (o1 :: o2 :: r))) (span s e))) as Hf.
+    { apply Forall_forall. intros o Ho. apply in_map_iff in Ho as (d & <- & _).
+      apply gw_time_interp_defined, obs_sorted_nonempty. }
+    split; [now rewrite map_length, span_length|]. split; [exact Hf|]. split.
+    - intros k Hk. unfold gw_at. rewrite nth_error_map, span_nth by exact Hk. cbn [option_map].
+      destruct (gw_time_interp (obs_sorted (o1 :: o2 :: r)) (s + Z.of_nat k)) as [v|] eqn:E; [eauto|].
+      exfalso. revert E. apply gw_time_interp_defined, obs_sorted_nonempty.
+    - unfold gw_daily. rewrite H'. rewrite firstn_all2 by (rewrite map_length, span_length; lia).
+      now apply all_some_defined.
   Qed.
 End Generic.
 
@@ -902,40 +941,46 @@ Section Real.
     injection Hv as <-. destruct (x <? x0)%Z eqn:E; auto. apply Z.ltb_ge in E. now apply interp_from_range.
   Qed.
 
-  Lemma valid_points_range i vals lo hi :
-    Forall (inr lo hi) vals -> Forall (fun p : Z * R => lo <= snd p <= hi) (valid_points i vals).
+  Lemma insert_obs_range d v (pts : list (Z * R)) lo hi :
+    lo <= v <= hi -> Forall (fun p : Z * R => lo <= snd p <= hi) pts ->
+    Forall (fun p : Z * R => lo <= snd p <= hi) (insert_obs d v pts).
   Proof.
-    intros H. revert i. induction H as [|[v|] vals Hv H IH]; intros i; simpl; auto.
+    intros Hv H. apply Forall_forall. intros p Hp. apply insert_obs_In in Hp as [->|Hp]; auto.
+    rewrite Forall_forall in H. now apply H.
   Qed.
 
-  Lemma interp_fill_range pts i vals lo hi :
-    Forall (fun p : Z * R => lo <= snd p <= hi) pts -> Forall (inr lo hi) vals ->
-    Forall (inr lo hi) (interp_fill pts i vals).
+  Lemma obs_sorted_range (obs : list (Z * R)) lo hi :
+    Forall (fun p : Z * R => lo <= snd p <= hi) obs -> Forall (fun p : Z * R => lo <= snd p <= hi) (obs_sorted obs).
   Proof.
-    intros Hp H. revert i. induction H as [|[v|] vals Hv H IH]; intros i; simpl; auto.
-    constructor; auto. destruct pts as [|[x0 y0] r]; [exact I|].
-    destruct (i <? x0)%Z; [exact I|].
-    destruct (np_interp ((x0, y0) :: r) i) eqn:E; [|exact I]. simpl. eapply np_interp_range; eauto.
+    unfold obs_sorted. intros H.
+    assert (forall pts, Forall (fun p : Z * R => lo <= snd p <= hi) pts ->
+              Forall (fun p : Z * R => lo <= snd p <= hi) (fold_left (fun acc p => insert_obs (fst p) (snd p) acc) obs pts)) as Hg.
+    { induction H as [|[d v] obs Hv H IH]; intros pts Hp; simpl; auto. apply IH. now apply insert_obs_range. }
+    apply Hg. constructor.
   Qed.
 
-  Theorem interpolate_range vals lo hi : Forall (inr lo hi) vals -> Forall (inr lo hi) (interpolate vals).
-  Proof. intros H. apply interp_fill_range; auto. now apply valid_points_range. Qed.
-
-  Lemma set_label_range d v (z : Series R) lo hi :
-    lo <= v <= hi -> Forall (fun p => inr lo hi (snd p)) z -> Forall (fun p => inr lo hi (snd p)) (set_label d v z).
+  Lemma gw_time_interp_range (pts : list (Z * R)) d lo hi :
+    Forall (fun p : Z * R => lo <= snd p <= hi) pts -> inr lo hi (gw_time_interp pts d).
   Proof.
-    intros Hv H. unfold set_label. destruct (has_label d z).
-    - apply Forall_forall. intros p Hp. apply in_map_iff in Hp as (q & <- & Hq).
-      rewrite Forall_forall in H. destruct (Z.eqb (fst q) d); simpl; auto.
-    - apply Forall_app. split; auto.
+    intros H. unfold gw_time_interp, lookup_date.
+    destruct (find (fun p : Z * R => Z.eqb (fst p) d) pts) as [p|] eqn:E.
+    - apply find_some in E as [E _]. rewrite Forall_forall in H. simpl. now apply H.
+    - destruct (np_interp (to_time pts) (d * time_unit)) as [v|] eqn:Ev; [|exact I]. simpl.
+      eapply np_interp_range; [|exact Ev]. unfold to_time. apply Forall_forall. intros p Hp.
+      apply in_map_iff in Hp as (q & <- & Hq). rewrite Forall_forall in H. simpl. now apply H.
   Qed.
 
-  Lemma gw_var_rows_range obs (z : Series R) lo hi :
-    Forall (fun p : Z * R => lo <= snd p <= hi) obs -> Forall (fun p => inr lo hi (snd p)) z ->
-    Forall (fun p => inr lo hi (snd p)) (gw_var_rows obs z).
+  (* the double expression np.interp evaluates over microseconds IS the linear interpolation by date *)
+  Lemma lin_interp_time d0 v0 d1 v1 d :
+    (d0 < d1)%Z ->
+    lin_interp (d0 * time_unit) v0 (d1 * time_unit) v1 (d * time_unit)
+    = v0 + (v1 - v0) * (IZR (d - d0) / IZR (d1 - d0)).
   Proof.
-    intros H. revert z. induction H as [|[d v] obs Hv H IH]; intros z Hz; simpl; auto.
-    apply IH. now apply set_label_range.
+    intros H. unfold lin_interp. rnum. rewrite !mult_IZR, !minus_IZR. apply IZR_lt in H.
+    assert (0 < IZR time_unit) as Hu by (unfold time_unit; lra).
+    set (u := IZR time_unit) in *.
+    pose proof (Rmult_lt_0_compat (IZR d1 - IZR d0) u ltac:(lra) Hu) as Hp.
+    field. repeat split; try lra; nra.
   Qed.
 
   Lemma const_rows_range first obs (z : Series R) lo hi :
@@ -969,9 +1014,33 @@ Section Real.
       + pose proof (const_rows_range true _ _ lo hi Ho Hn) as H.
         apply Forall_forall. intros o Hin. apply in_map_iff in Hin as (p & <- & Hp).
         rewrite Forall_forall in H. now apply H.
-      + apply interpolate_range. pose proof (gw_var_rows_range _ _ lo hi Ho Hn) as H.
-        apply Forall_forall. intros o Hin. apply in_map_iff in Hin as (p & <- & Hp).
-        rewrite Forall_forall in H. now apply H.
+      + apply Forall_forall. intros o Hin. apply in_map_iff in Hin as (d & <- & _).
+        apply gw_time_interp_range, obs_sorted_range, Ho.
+  Qed.
+  (* gw_variable_spec (C19): the depth of simulation day k under the "Variable" method.  pts = the
+     observations after de-duplication by date (last write wins) and sorting by date. *)
+  Theorem gw_variable_spec s e o1 o2 (r : list (Z * R)) z k :
+    gw_series true GwVariable s e (o1 :: o2 :: r) = Ok z -> (k < Z.to_nat (e - s + 1))%nat ->
+    let obs := o1 :: o2 :: r in let pts := obs_sorted obs in let d := (s + Z.of_nat k)%Z in
+    StronglySorted (fun p q : Z * R => (fst p < fst q)%Z) pts /\
+    (forall d', lookup_date d' pts = last_write d' obs) /\
+    exists v, gw_at z k = Some v /\
+      (forall x, last_write d obs = Some x -> v = x) /\
+      (forall d0 v0 rest, pts = (d0, v0) :: rest -> (d < d0)%Z -> v = v0) /\
+      (forall pre dl vl, pts = pre ++ [(dl, vl)] -> (dl < d)%Z -> v = vl) /\
+      (forall pre d0 v0 d1 v1 post, pts = pre ++ (d0, v0) :: (d1, v1) :: post -> (d0 < d < d1)%Z ->
+         v = v0 + (v1 - v0) * (IZR (d - d0) / IZR (d1 - d0))).
+  Proof.
+    intros H Hk obs pts d. pose proof (obs_sorted_sorted obs) as Hs. fold pts in Hs.
+    split; [exact Hs|]. split; [intros d'; apply obs_sorted_lookup|].
+    destruct (gw_variable_defined _ _ _ _ _ _ H) as (_ & _ & Hd & _).
+    destruct (Hd k Hk) as (v & Hv & Hg). fold obs pts d in Hg. exists v. split; [exact Hv|]. repeat split.
+    - intros x Hx. rewrite <- (obs_sorted_lookup d obs) in Hx. fold pts in Hx.
+      rewrite (gw_variable_on_obs _ _ _ Hx) in Hg. now injection Hg.
+    - intros d0 v0 rest E Hlt. rewrite E in Hs, Hg. rewrite (gw_variable_before _ _ _ _ Hs Hlt) in Hg. now injection Hg.
+    - intros pre dl vl E Hlt. rewrite E in Hs, Hg. rewrite (gw_variable_after _ _ _ _ Hs Hlt) in Hg. now injection Hg.
+    - intros pre d0 v0 d1 v1 post E Hlt. rewrite E in Hs, Hg.
+      rewrite (gw_variable_between _ _ _ _ _ _ _ Hs Hlt) in Hg. injection Hg as <-. apply lin_interp_time. lia.
   Qed.
 End Real.
 
@@ -1082,16 +1151,25 @@ Section Examples.
     schedule_reindex 10 13 [(12%Z, 25); (40%Z, 5); (40%Z, 7)] = Err EDupLabel.
   Proof. split; reflexivity. Qed.
 
-  Example gw_nan_start_hyp : (0 <= 5)%Z /\ ~ In 0%Z (map fst [(2%Z, 1); (4%Z, 2)]).
-  Proof. split; [lia|]. simpl. intuition lia. Qed.
+  (* unsorted observations with a repeated date, one before and one after the window 3..5 *)
+  Example gw_obs_sorted_example :
+    obs_sorted [(9%Z, 2); (1%Z, 1); (9%Z, 3)] = [(1%Z, 1); (9%Z, 3)].
+  Proof. reflexivity. Qed.
+
+  Example gw_variable_between_hyp :
+    StronglySorted (fun p q : Z * R => (fst p < fst q)%Z) ([] ++ (1%Z, 1) :: (9%Z, 3) :: []) /\ (1 < 4 < 9)%Z.
+  Proof. split; [|lia]. repeat constructor; simpl; lia. Qed.
+
+  (* day 4 of that example: 1 + (3-1)*(4-1)/(9-1) *)
+  Example gw_variable_example :
+    gw_time_interp (obs_sorted [(9%Z, 2); (1%Z, 1); (9%Z, 3)]) 4 = Some (1 + (3 - 1) * (IZR (4 - 1) / IZR (9 - 1))).
+  Proof.
+    rewrite gw_obs_sorted_example.
+    rewrite (gw_variable_between [] 1 1 9 3 [] 4 (proj1 gw_variable_between_hyp) (proj2 gw_variable_between_hyp)).
+    now rewrite lin_interp_time by lia.
+  Qed.
 
   Example gw_range_hyp : Forall (fun p : Z * R => 1 <= snd p <= 2) [(2%Z, 1); (4%Z, 2)].
   Proof. repeat constructor; simpl; lra. Qed.
 
-  (* finding: an observation AFTER the last simulation day is appended right behind the window, so the
-     interpolation reaches it one day after the end whatever its date; an observation BEFORE the start is
-     appended there too and acts as an observation after the end *)
-  Example gw_outside_appended :
-    map fst (gw_var_rows [(1%Z, 1); (100%Z, 2); ((-50)%Z, 3)] (nan_series 0 2)) = [0; 1; 2; 100; -50]%Z.
-  Proof. reflexivity. Qed.
 End Examples.
